@@ -21,8 +21,9 @@ def _is_remote_error_expr(repo, fi, e: ast.AST | None) -> bool | None:
         return True
     if isinstance(e, ast.Name):
         defs = [n.value for n in repo.own_nodes(fi) if isinstance(n, ast.Assign) and any(unparse(t) == e.id for t in n.targets)]
-        if defs and all(_is_remote_error_expr(repo, fi, d) is True for d in defs):
-            return True
+        kinds = [_is_remote_error_expr(repo, fi, d) for d in defs]
+        if defs and all(k in (True, None) for k in kinds):
+            return True if any(k is True for k in kinds) else None
         for a in fi.node.args.args:
             if a.arg == e.id and a.annotation is not None and "RemoteError" in unparse(a.annotation):
                 return True
